@@ -1,1 +1,100 @@
-From Morfuse Require Import C08.Model C08.Spec.
+(* C08/Properties.v — the property theorems of C08, and nothing else.
+   Every theorem is closed by [exact <lemma>] and followed by Print Assumptions. *)
+From Coq Require Import ZArith NArith List Bool.
+From Morfuse Require Import C08.Model C08.Spec C08.Proofs.
+Import ListNotations.
+Local Open Scope Z_scope.
+
+(* For EVERY history of posts (any delay, also negative), cancels, listener destructions,
+   clock advances and processing passes - handlers may post further (already due) events,
+   cancel and destroy re-entrantly - the queue with PostEvent's three-way insertion and the
+   pop-the-root pass observes exactly what the pending-bag specification of C08/Spec.v
+   observes: the same deliveries in the same order ((due time, posting order) minimal
+   first, only when due), the same number of pending events, the same IsEventPending. *)
+Theorem C08_queue_refines_the_pending_bag :
+  forall ops : list op, run ops = spec_run ops.
+Proof. exact run_refines_spec. Qed.
+Print Assumptions C08_queue_refines_the_pending_bag.
+
+(* A pass always ends within its fuel (every delivery strictly decreases the weight: the
+   posts a handler can make were counted in the delivered node), for every state. *)
+Theorem C08_a_pass_never_hangs :
+  forall s : st, process (weight (q s)) s [] <> None.
+Proof. exact process_never_hangs. Qed.
+Print Assumptions C08_a_pass_never_hangs.
+
+Theorem C08_a_spec_pass_never_hangs :
+  forall s : st, spec_process (weight (q s)) s [] <> None.
+Proof. exact spec_process_never_hangs. Qed.
+Print Assumptions C08_a_spec_pass_never_hangs.
+
+Theorem C08_no_history_reports_a_hung_pass :
+  forall ops : list op, ~ In None (run ops).
+Proof. exact run_never_hangs. Qed.
+Print Assumptions C08_no_history_reports_a_hung_pass.
+
+(* After a pass the clock is unchanged and nothing that is due stays pending: an event is
+   delivered in the first pass whose time is >= its due time, unless cancelled. *)
+Theorem C08_spec_pass_leaves_nothing_due :
+  forall f s log s' log',
+    spec_process f s log = Some (s', log') ->
+    now s' = now s /\ forall x, In x (q s') -> now s' < ntime x.
+Proof. exact spec_process_not_early. Qed.
+Print Assumptions C08_spec_pass_leaves_nothing_due.
+
+(* The same for the model, on every state whose queue is sorted by (time, seq) with
+   distinct sequence numbers below nextseq; [step] preserves that invariant. *)
+Theorem C08_pass_leaves_nothing_due :
+  forall f s log s' log',
+    qinv (q s) (nextseq s) ->
+    process f s log = Some (s', log') ->
+    now s' = now s /\ forall x, In x (q s') -> now s' < ntime x.
+Proof. exact process_not_early. Qed.
+Print Assumptions C08_pass_leaves_nothing_due.
+
+Theorem C08_every_operation_keeps_the_queue_sorted :
+  forall s o s' ob,
+    qinv (q s) (nextseq s) -> step s o = Some (s', ob) -> qinv (q s') (nextseq s').
+Proof. exact step_keeps_qinv. Qed.
+Print Assumptions C08_every_operation_keeps_the_queue_sorted.
+
+(* Cancelling removes exactly the events named and nothing else. *)
+Theorem C08_cancel_removes_exactly_the_named_events :
+  forall p l,
+    cancel p l = filter (fun x => negb (p x)) l /\
+    forall x, In x (cancel p l) <-> In x l /\ p x = false.
+Proof. exact cancel_exact. Qed.
+Print Assumptions C08_cancel_removes_exactly_the_named_events.
+
+(* Non-vacuity: ties at time 5 (seq 0, 1, 4), a negative delay (seq 2, to the front), an
+   insertion in the middle (seq 3), a cancel by type (seq 4), a handler (of seq 1) that
+   posts an already-due event (seq 8, delivered in the same pass) and cancels listener 0's
+   events (seq 5, 6), three passes.  Shown: (deliveries (seq, listener, type), pending). *)
+Example C08_history_example :
+  map (option_map (fun o => (delivered o, npending o)))
+      (run [ ODo (APost 0 0 5 0 []);
+             ODo (APost 1 1 5 0 [APost 2 2 (-3) 0 []; ACancelAll 0]);
+             ODo (APost 0 1 (-2) 0 []);
+             ODo (APost 2 0 3 0 []);
+             ODo (APost 1 2 5 1 []);
+             ODo (APost 0 2 9 0 []);
+             ODo (APost 0 0 7 0 []);
+             ODo (APost 2 1 12 0 []);
+             ODo (ACancelType 1 2);
+             OProcess; OAdvance 5; OProcess; OAdvance 10; OProcess ]) =
+  [ Some ([], 1%nat); Some ([], 2%nat); Some ([], 3%nat); Some ([], 4%nat);
+    Some ([], 5%nat); Some ([], 6%nat); Some ([], 7%nat); Some ([], 8%nat);
+    Some ([], 7%nat);
+    Some ([(2, 0, 1)], 6%nat); Some ([], 6%nat);
+    Some ([(3, 2, 0); (0, 0, 0); (1, 1, 1); (8, 2, 2)], 1%nat); Some ([], 1%nat);
+    Some ([(7, 2, 1)], 0%nat) ]%N.
+Proof. vm_compute. reflexivity. Qed.
+
+(* the queue itself after the posts and the cancel: sorted by (time, seq) *)
+Example C08_queue_example :
+  map (fun x => (ntime x, nseq x))
+      (q (fold_left do_act
+            [ APost 0 0 5 0 []; APost 1 1 5 0 []; APost 0 1 (-2) 0 []; APost 2 0 3 0 [];
+              APost 1 2 5 1 []; APost 0 2 9 0 []; APost 0 0 7 0 []; ACancelType 1 2 ] init)) =
+  [ (-2, 2%N); (3, 3%N); (5, 0%N); (5, 1%N); (7, 6%N); (9, 5%N) ].
+Proof. vm_compute. reflexivity. Qed.
